@@ -15,13 +15,30 @@ def issued : List Out → List Nat
 /-- C02.fresh_versions: every successful write gets a version never handed out before (strictly
 above everything issued so far), so a holder of an older version can always detect the change. -/
 theorem fresh_versions (s : Spec) (h : Hist) :
-    (issued (runSpec s h).2).Pairwise (· < ·) ∧ ∀ v ∈ issued (runSpec s h).2, s.nextVer ≤ v :=
-  sorry
+    (issued (runSpec s h).2).Pairwise (· < ·) ∧ ∀ v ∈ issued (runSpec s h).2, s.nextVer ≤ v := by
+  induction h generalizing s with
+  | nil => simp [runSpec, issued]
+  | cons a h ih =>
+    obtain ⟨t, op⟩ := a
+    simp only [runSpec]
+    have hv := Spec.step_ver s t op
+    have ih' := ih (s.step t op).1
+    cases ho : (s.step t op).2 with
+    | okVer v =>
+      obtain ⟨h1, h2⟩ := hv.2 v ho
+      simp only [issued]
+      refine ⟨List.pairwise_cons.mpr ⟨fun w hw => ?_, ih'.1⟩, ?_⟩
+      · have := ih'.2 w hw; omega
+      · intro w hw
+        rcases List.mem_cons.mp hw with h | h
+        · omega
+        · have := ih'.2 w h; omega
+    | _ => simp only [issued]; exact ⟨ih'.1, fun w hw => Nat.le_trans hv.1 (ih'.2 w hw)⟩
 
 /-- every stored version was issued: stored versions stay below `nextVer` -/
 theorem stored_below_next (h : Hist) :
     ∀ kr ∈ (runSpec Spec.new h).1.store, kr.2.ver < (runSpec Spec.new h).1.nextVer :=
-  sorry
+  Spec.Below.run h Spec.Below.new
 
 /-- C02.cas_same_version_at_most_once: in any history, CasByVersion against one given version of
 one key succeeds at most once. -/
@@ -29,21 +46,63 @@ theorem cas_same_version_at_most_once (h : Hist) (k : String) (ver : Nat) :
     ((List.zip h (runSpec Spec.new h).2).filter fun (x, o) =>
         match x.2, o with
         | .cas k' ver' _ _, .okVer _ => k' == k && ver' == ver
-        | _, _ => false).length ≤ 1 :=
-  sorry
+        | _, _ => false).length ≤ 1 := by
+  have hf : (fun (p : (Nat × Op) × Out) => match p with
+      | (x, o) => match x.2, o with
+        | .cas k' ver' _ _, .okVer _ => k' == k && ver' == ver
+        | _, _ => false) = casHit k ver := by
+    funext ⟨x, o⟩; rfl
+  rw [hf]
+  exact Spec.Below.hit_le_one h Spec.Below.new
+
+/-- once `k` holds a record that never expires, further Creates all fail -/
+theorem creators_lose (now : Nat) (k : String) (vs : List String) (s : Spec) (r : Rec)
+    (hg : s.store.get k = some r) (he : r.exp = none) :
+    issued (runSpec s (vs.map fun v => (now, Op.create k v none))).2 = [] := by
+  have hl : s.live now k = some r := by
+    rw [Spec.live_of_get hg]
+    simp [expired, he]
+  induction vs with
+  | nil => rfl
+  | cons v vs ih =>
+    simp only [List.map_cons, runSpec, Spec.step, hl, issued]
+    exact ih
 
 /-- C02.racing_creators_one_winner: among any number of Create calls on one key with no Delete /
 expiry in between, exactly the first succeeds (whatever order they are linearised in, one wins). -/
 theorem racing_creators_one_winner (s : Spec) (now : Nat) (k : String) (vs : List String)
     (hfree : s.live now k = none) (hne : vs ≠ []) :
-    (issued (runSpec s (vs.map fun v => (now, Op.create k v none))).2).length = 1 :=
-  sorry
+    (issued (runSpec s (vs.map fun v => (now, Op.create k v none))).2).length = 1 := by
+  cases vs with
+  | nil => exact absurd rfl hne
+  | cons v vs =>
+    simp only [List.map_cons, runSpec, Spec.step, hfree, issued]
+    rw [creators_lose now k vs (s.write k v none).1 ⟨v, s.nextVer, none⟩
+      (by simp only [Spec.write]; exact Store.get_put_self _ _ _) rfl]
+    rfl
 
 /-- C02.loser_changes_nothing: ErrExist / ErrConflict / ErrNotExist leave the visible store unchanged -/
 theorem loser_changes_nothing (s : Spec) (now : Nat) (op : Op) :
     (match (s.step now op).2 with
       | .errExist _ | .errConflict | .errNotExist => True
-      | _ => False) → (s.step now op).1 = s :=
-  sorry
+      | _ => False) → (s.step now op).1 = s := by
+  cases op with
+  | create k v e => simp only [Spec.step]; cases s.live now k <;> simp
+  | get k => simp only [Spec.step]; cases s.live now k <;> simp
+  | getMany ks => simp [Spec.step]
+  | put k v e => simp [Spec.step]
+  | putMany rs => rw [Spec.step_putMany]; simp
+  | cas k ver v e =>
+    simp only [Spec.step]
+    cases s.live now k with
+    | none => simp
+    | some r => by_cases hv : r.ver = ver <;> simp [hv]
+  | delete k => simp only [Spec.step]; cases s.live now k <;> simp
+  | list pat => simp [Spec.step]
+  | wait k ver =>
+    simp only [Spec.step]
+    cases s.live now k with
+    | none => simp
+    | some r => by_cases hv : r.ver = ver <;> simp [hv]
 
 end C02
